@@ -144,7 +144,12 @@ func ElemBytes(d D, bt fitmodel.BaseType, be bool) []byte {
 	return fitmodel.PutWireUint(v&mask, n, be)
 }
 
-var stringPool = []string{"a", "Z", "fit", "héllo", "日本", "x y", "Garmin", "0123456789abcdef", "ünï", "😀", "q"}
+// stringPool holds valid UTF-8 pieces: ASCII, 2-, 3- and 4-byte characters,
+// the first and last code point of each encoded length, a control character,
+// and the replacement character U+FFFD written literally (valid UTF-8 that a
+// rune-by-rune validity test mistakes for a decoding error).
+var stringPool = []string{"a", "Z", "fit", "héllo", "日本", "x y", "Garmin", "0123456789abcdef", "ünï", "😀", "q",
+	"\uFFFD", "a\uFFFDb", "\u0080", "\u07FF", "\u0800", "\uFFFF", "\U00010000", "\U0010FFFF", "\x7f\x01"}
 
 // StringBytes draws the wire bytes of a string field of the given size.
 func StringBytes(d D, size int, odd bool) []byte {
@@ -606,8 +611,20 @@ func GenStream(d D, o StreamOpts) (*fitmodel.Stream, *GenInfo) {
 				if bigDev {
 					ndev = d.Int(3, 4, "ndevbig")
 				}
+				manyDev := !bigDev && d.Int(0, 7, "manydev") == 0
+				if manyDev {
+					// the count byte over its whole range, with the values
+					// around 256/3 and 512/3 where 3*n crosses a byte
+					ndev = []int{85, 86, 128, 170, 171, 255, d.Int(5, 255, "ndevmany")}[d.Int(0, 6, "ndevsel")]
+					if ndev >= 86 {
+						info.Labels["dev-fields>=86"]++
+					}
+				}
 				for k := ndev; k > 0; k-- {
 					sz := d.Int(0, 9, "ds")
+					if manyDev {
+						sz = d.Int(0, 2, "dsmany")
+					}
 					if bigDev {
 						sz = d.Int(200, 255, "dsbig") // developer payloads beyond any scratch buffer
 					}
